@@ -240,7 +240,19 @@ func VerifH_C25_record_roundtrip() {
 	if vr.Tier() == 1 {
 		max = 18
 	}
-	payload := vr.Bytes("payload", vr.Int("plen", 0, max))
+	// A concrete zero filler after the symbolic bytes takes the total length across
+	// the 255/256 boundary (high byte of the record length, multi-block CBC, MAC
+	// input longer than one length byte) without 256 symbolic bytes.
+	fills := []int{0, 253}
+	if vr.Tier() == 1 {
+		fills = []int{0, 253, 1020}
+	}
+	fill := fills[vr.Int("fill", 0, len(fills)-1)]
+	lo := 0
+	if fill > 0 && vr.Tier() == 0 {
+		lo, max = 2, 3 // totals 255 and 256
+	}
+	payload := append(vr.Bytes("payload", vr.Int("plen", lo, max)), make([]byte, fill)...)
 	typ := recordType(vr.U8("type"))
 	if s.vers == VersionTLS13 {
 		vr.Assume(typ != 0) // inner content type 0 is padding by definition
